@@ -12,6 +12,8 @@ import (
 
 type schemaDoc struct {
 	types, funcs []string
+	// a second pair of sections after the first one (---types--- switches back)
+	types2, funcs2 []string
 	nextID       uint32
 }
 
@@ -81,6 +83,14 @@ func (d *schemaDoc) text(crlf bool) string {
 	lines := append([]string{}, d.types...)
 	lines = append(lines, "", "---functions---", "")
 	lines = append(lines, d.funcs...)
+	if len(d.types2) > 0 {
+		lines = append(lines, "", "---types---", "")
+		lines = append(lines, d.types2...)
+	}
+	if len(d.funcs2) > 0 {
+		lines = append(lines, "", "---functions---", "")
+		lines = append(lines, d.funcs2...)
+	}
 	nl := "\n"
 	if crlf {
 		nl = "\r\n"
@@ -127,6 +137,17 @@ func features() []feature {
 		d.typ("store.itemEmpty#ID = store.Item;")
 		d.fn("store.getItem#ID = store.Item;")
 	})
+	add("sections-switch-back-and-forth", func(d *schemaDoc) {
+		d.types2 = append(d.types2, strings.Replace("lateBeta#ID x:int = LateBeta;", "#ID", "#"+d.id(), 1))
+		d.funcs2 = append(d.funcs2, strings.Replace("getLateBeta#ID = LateBeta;", "#ID", "#"+d.id(), 1))
+	})
+	for _, n := range []string{"interval", "stringPair", "longPoll", "bytesBlob", "doubleValue", "vectorClock", "trueColor", "flagsHolder", "boolBox"} {
+		n := n
+		add("name-starts-like-a-builtin:"+n, func(d *schemaDoc) {
+			d.typ("%s#ID a:int = %s;", n, strings.ToUpper(n[:1])+n[1:]+"T")
+			d.fn("%sGet#ID a:int = %s;", n, strings.ToUpper(n[:1])+n[1:]+"T")
+		})
+	}
 	for _, p := range []string{"int", "long", "double", "string", "bytes", "Bool"} {
 		p := p
 		add("param:"+p, func(d *schemaDoc) { d.typ("holder%s#ID a:%s b:int = Holder%s;", strings.Title(p), p, strings.Title(p)) })
